@@ -117,6 +117,33 @@ fn check_prim(case: &Case, obs: &mut Obs) {
     }
 }
 
+/// dotted rectangles (the only non-solid stroke style)
+fn check_dotted(case: &Case, obs: &mut Obs) {
+    let d = Point::new(case.d.0, case.d.1);
+    let mut style = case.sty.build::<C>();
+    style.stroke_style = embedded_graphics::primitives::StrokeStyle::Dotted;
+    if let Shape::Rect { x, y, w, h } = &case.shape {
+        let s = mk_rect(*x, *y, *w, *h).into_styled(style);
+        let base = render(&s);
+        let moved = s.translate(d);
+        let got = render(&moved);
+        let want = shift_map(&base, d.x, d.y);
+        obs.outcome(&base);
+        obs.nontrivial_if(!base.is_empty());
+        obs.class("dotted-rectangle");
+        if got != want {
+            obs.fail("draw(translate(d))==shift(draw,d)", format!("dotted rectangle: {}", map_diff(&got, &want)));
+        }
+        let bb = s.bounding_box();
+        if !bb.is_zero_sized() {
+            let tb = moved.bounding_box();
+            if tb.top_left != bb.top_left + d || tb.size != bb.size {
+                obs.fail("styled-bounding-box-shifts", format!("{:?} moved by {:?} gives {:?}", rt(&bb), case.d, rt(&tb)));
+            }
+        }
+    }
+}
+
 #[derive(Clone, Debug, PartialEq, Eq, Hash, Serialize, Deserialize)]
 struct TCase {
     t: TextCase,
@@ -240,6 +267,29 @@ fn run_part(run: &mut Run) {
         "angles-fixed-point" => {
             run.sweep_vec("arcs-sectors-fixed-point", "arcs and sectors of the catalogue x S(4) x offsets in the fixed_point build", || with_offsets(angle_shapes((-2, -3)), &styles(4), &ds), check_prim);
         }
+        "dotted" => {
+            run.sweep_vec("dotted-rectangles", "rectangles w,h in 0..=16 plus larger ones (31x31, 41x17, 12x40, 31x7, 26x33) x stroke widths 1..=9 x 3 alignments x fill on/off with StrokeStyle::Dotted x offsets, straddling the origin", || {
+                let mut sh = vec![];
+                for w in 0..=16 {
+                    for h in 0..=16 {
+                        sh.push(Shape::Rect { x: -5, y: -6, w, h });
+                    }
+                }
+                for (w, h) in [(31, 31), (41, 17), (12, 40), (31, 7), (26, 33), (50, 50)] {
+                    sh.push(Shape::Rect { x: -47, y: -13, w, h });
+                    sh.push(Shape::Rect { x: -20, y: -21, w, h });
+                }
+                let mut st = vec![];
+                for w in 1..=9u32 {
+                    for al in 0..3u8 {
+                        for fill in [false, true] {
+                            st.push(Sty { fill, stroke: true, w, al, same: false });
+                        }
+                    }
+                }
+                with_offsets(sh, &st, &ds)
+            }, check_dotted);
+        }
         "triangles" => {
             run.sweep_vec("triangles", "all vertex triples of a 5x5 grid stride 2 (thorough: plus 6x6 stride 1 with S(4)) x S(W) x offsets",
                 || with_offsets(tri_grid(5, 2, -4, -3), &styles(tier.pick(5, 6)), &ds[..tier.pick(2, ds.len())]), check_prim);
@@ -303,9 +353,9 @@ fn main() {
         level: "exploration",
         rule: "every (drawable, style, offset d) of the listed product once; non-trivial = the untranslated drawable draws at least one pixel; the pixel map of x.translate(d) must equal the map of x shifted by d; non-empty bounding boxes, points() sequences and contains() (box grown by 2) must shift by d; translate_mut must equal translate; polylines are also moved by moving their vertices; text must return a next position shifted by d",
         assumptions: &["bounded to the listed catalogue and offsets (objects straddle the origin so the offsets move them across both axes)"],
-        parts: |_| vec![PartSpec::new("shapes", "verif"), PartSpec::new("triangles", "verif"), PartSpec::new("polylines", "verif"), PartSpec::new("images-text", "verif"), PartSpec::new("angles-fixed-point", "verif_fp")],
+        parts: |_| vec![PartSpec::new("shapes", "verif"), PartSpec::new("triangles", "verif"), PartSpec::new("polylines", "verif"), PartSpec::new("images-text", "verif"), PartSpec::new("dotted", "verif"), PartSpec::new("angles-fixed-point", "verif_fp")],
         run_part,
-        required_classes: |_| vec!["rect", "circle", "ellipse", "rrect", "triangle", "line", "arc", "sector", "polyline", "thick-triangle-or-polyline", "moved-across-y-axis", "moved-across-x-axis", "points-compared", "contains-compared", "text", "image"],
+        required_classes: |_| vec!["rect", "circle", "ellipse", "rrect", "triangle", "line", "arc", "sector", "polyline", "thick-triangle-or-polyline", "moved-across-y-axis", "moved-across-x-axis", "points-compared", "contains-compared", "text", "image", "dotted-rectangle"],
         crash_is_verdict: false,
     })
 }
